@@ -299,7 +299,7 @@ func (rs *RSched) Run(watchdog time.Duration) bool {
 	}
 	rs.Stalled = !ok
 	// more goroutines than the scheduler started: something runs that it does not own
-	if runtime.NumGoroutine() > rs.base+rs.nSnapshot()+2 {
+	if tooManyGoroutines(rs.base + rs.nSnapshot() + 2) {
 		rs.UnownedSeen = true
 	}
 	if ok && !rs.Deadlock {
@@ -385,7 +385,7 @@ func (rs *RSched) yield(site, class int) {
 		t.AccYields++
 	}
 	t.lastSite = site
-	if n&1023 == 1023 && runtime.NumGoroutine() > rs.base+rs.n+2 {
+	if n&1023 == 1023 && tooManyGoroutines(rs.base+rs.n+2) {
 		rs.UnownedSeen = true // goroutines the scheduler did not start are running
 	}
 	if rs.AbortYields > 0 && rs.YieldN > rs.AbortYields {
